@@ -15,6 +15,7 @@ UNITS = {
     'CONNENG': dict(template='conneng.rs', rlimit=40),
     'TRANSPORT': dict(template='transport.rs', rlimit=30),
     'LINKDETACH': dict(template='linkdetach.rs', rlimit=30),
+    'BUILDER': dict(template='builder.rs', rlimit=30),
 }
 
 COMMON_TRUSTED = [
@@ -136,9 +137,9 @@ PROPS = {
             'header-before-open (transport protocol-header exchange), a peer close always being answered, handle results, EOF handling and flushing of queued frames are liveness/glue and are NOT decided',
             'ConnectionEngine::{on_incoming,on_outgoing_session_frames,on_heartbeat,forward_to_session} are under contract (unit CONNENG) against a stand-in connection endpoint carrying the CONN contracts; close_connection / wait_for_remote_close / on_control / on_error / event_loop (select!) are not']),
     'C17': dict(
-        units=['CONN', 'CONNENG', 'FRAMEDEC'], kani=[], level='proof', title='Negotiated limits (channel-max part)',
+        units=['CONN', 'CONNENG', 'FRAMEDEC', 'BUILDER'], kani=[], level='proof', title='Negotiated limits (channel-max part)',
         assumptions=[
-            'ONLY channel-max is decided. The idle time-out sentences (heartbeats within the peer\'s idle-time-out, local time-out teardown) are timed behaviour of tokio Interval/Sleep and have no contract here (no clock in either verifier) -- see DESIGN D10',
+            'DECIDED: channel-max; the VALUES the timers are armed with (heartbeat period from the peer\'s idle-time-out, 0/unset => none; local deadline = configured idle-time-out, advertised value = half of it); one empty frame per heartbeat tick; none after the local Close. NOT DECIDED: the timed behaviour itself (tokio Interval/Sleep, deadline reset on every received frame in Transport::poll_next): no clock in either verifier',
             'slab::Slab modelled as a partial map whose vacant key is unoccupied']),
     'C10': dict(
         units=['REASM', 'LINK'], kani=[], level='proof', title='Reassembly',
